@@ -442,6 +442,37 @@ def names_session(rng, pool, sid):
     return ops, meta, text, g, decl_span, refs
 
 
+def doc_session(rng, pool, sid):
+    """a valid grammar in canonical layout with a `///` doc comment in front of every rule and token declaration (text of the
+    comment beginning with nothing / an ASCII blank / a tab / a non-ASCII blank) and a hover on every reference in a rule body:
+    the hover of a reference quotes the doc comment of the declaration it refers to"""
+    text, g = pool.valid()
+    if g is None:
+        return None
+    canon = render(g)
+    g.text = None
+    blanks = ["", " ", "  ", "\t", "\u3000", "\u00a0", " \u3000 "]
+    lines = []
+    for ln in canon.split("\n"):
+        if ln and (ln[0].islower() or ln.startswith("token ")) and not ln.startswith(("start ", "skip ", "right ", "part ")):
+            lines.append("///" + rng.choice(blanks) + rng.choice(["doc", "式: 項の和", "é", "a | b", ""]))
+        lines.append(ln)
+    text = "\n".join(lines)
+    uri = f"file:///verif_ls/doc{sid}/g.llw"
+    doc = Doc(text)
+    ops = [{"op": "open", "uri": uri, "text": text}]
+    off = 0
+    for li, ln in enumerate(doc.lines):
+        if ":" in ln and ln[:1].islower() and not ln.startswith("///"):
+            body_at = ln.index(":") + 1
+            for m in re.finditer(r"[A-Za-z_][A-Za-z_0-9]*|'(?:\\.|[^'\\])*'", ln[body_at:]):
+                if len(ops) < 40:
+                    ops.append({"op": "hover", "uri": uri, "line": li, "ch": u16len(ln[:body_at + m.start()])})
+    ops.append({"op": "definition", "uri": uri, "line": 0, "ch": 0})
+    ops.append({"op": "close", "uri": uri})
+    return ops
+
+
 def judge_names_session(pack, results, V, counts):
     ops, meta, text, g, decl_span, refs = pack
     doc = Doc(text)
@@ -507,6 +538,12 @@ def _worker(args):
             if pack is None:
                 continue
             ops = pack[0]
+        elif s % 8 == 2:
+            pack = None
+            ops = doc_session(rng, pool, sid)
+            if ops is None:
+                continue
+            counts["doc_comment_sessions"] += 1
         else:
             pack = None
             ops = make_session(rng, pool, sz["ops"], sid)
